@@ -114,11 +114,6 @@ func checkMain(args []string) int {
 	for _, ex := range pc.Exclude {
 		knownFailing[ex] = true
 	}
-	for ex, why := range pc.AssumedObligations {
-		knownFailing[ex] = true
-		pc.Exclude = append(pc.Exclude, ex)
-		pc.Assumptions = append(pc.Assumptions, "ASSUMED obligation (not discharged) "+ex+": "+why)
-	}
 	sort.Strings(pc.Assumptions)
 	timeout := 10
 	all := false
@@ -158,6 +153,34 @@ func checkMain(args []string) int {
 		// repository they (transitively) call, spawn or defer that has a contract of its own (trusted ones are assumptions).
 		pc.Functions = calleeClosure(w, pc.Functions)
 	}
+	inFuncs := map[string]bool{}
+	for _, f := range pc.Functions {
+		inFuncs[f] = true
+	}
+	// an assumed obligation is a call-site precondition of some function; with call-closed function lists that function is
+	// verified by every property that reaches it, so the assumption applies (and is reported) there too
+	if pc.AssumedObligations == nil {
+		pc.AssumedObligations = map[string]string{}
+	}
+	for name, other := range props {
+		if name == prop || name == "ALLX" {
+			continue
+		}
+		for ex, why := range other.AssumedObligations {
+			if !inFuncs[strings.SplitN(ex, "#", 2)[0]] {
+				continue
+			}
+			if _, ok := pc.AssumedObligations[ex]; !ok {
+				pc.AssumedObligations[ex] = why
+			}
+		}
+	}
+	for ex, why := range pc.AssumedObligations {
+		knownFailing[ex] = true
+		pc.Exclude = append(pc.Exclude, ex)
+		pc.Assumptions = append(pc.Assumptions, "ASSUMED obligation (not discharged) "+ex+": "+why)
+	}
+	sort.Strings(pc.Assumptions)
 	if *updateLock {
 		// the tree IS the baseline: bind by the names and ordinals as written; the recorded shapes of this property's
 		// functions are replaced below
